@@ -867,6 +867,8 @@ def _decide_order(opn, l, r):
 
 
 def compare(I, op, l, r, node):
+    if getattr(I, 'record_compares', False):
+        I.emit('compare', node, {'op': type(op).__name__, 'l': l, 'r': r})
     cl, cr = concrete(l), concrete(r)
     lc, rc = is_concrete(l), is_concrete(r)
     opn = type(op).__name__
